@@ -8,7 +8,7 @@ import os, sys, json, random, shutil, time, hashlib, atexit, tempfile
 HERE = os.path.dirname(os.path.abspath(__file__))
 sys.path.insert(0, HERE)
 import extract_tables, gen_defs, corpus, reflex
-from lexast import def_lines, ruleset_names, rules_in_order
+from lexast import def_lines, ruleset_names, rules_in_order, base_kinds
 
 VERIF = os.path.dirname(HERE)
 CACHE = os.path.join(VERIF, '.cache')
@@ -465,10 +465,18 @@ def run_pipeline(tier, seed, log=lambda s: None):
             impl.update(r)
     run_s = time.time() - t0
     log('implementation runs: %d cases in %.1fs' % (len(impl), run_s))
+    # the same cases once more, in reverse order and each on a fresh thread: the traces of a case must not depend on what ran before it in
+    # the process or on the thread (C15: all run-time state lives in the lexer value; no memo, counter or cache outside it)
+    impl2 = {}
+    with ThreadPoolExecutor(max_workers=8) as ex:
+        for r in ex.map(lambda j: corpus.run_crate_cases(ws, j[0], j[1], work, timeout=300, target_dir=shared_target(), mode='fresh_rev'), jobs):
+            impl2.update(r)
+    log('implementation runs (reverse order, fresh threads): %d cases in %.1fs' % (len(impl2), time.time() - t0 - run_s))
     # model: stage + traces (on the dumped machine)
     t0 = time.time()
     lines = []
     spec_of = {}
+    canon_defs = {}
     for d in progs:
         nm = d['name']
         dd = dumps.get(nm)
@@ -488,7 +496,10 @@ def run_pipeline(tier, seed, log=lambda s: None):
             e['mach'] = 'spec'
             spec_cs.append(e)
         spec_of[nm] = {e['id'][:-1]: e['id'] for e in spec_cs}
-        lines += corpus.lexmodel_input(nm, def_lines(d), dd['body'], True, cs + spec_cs)
+        dls, dd = corpus.canon_actions(def_lines(d, True), dd)
+        dumps[nm] = dd
+        canon_defs[nm] = dls
+        lines += corpus.lexmodel_input(nm, dls, dd['body'], True, cs + spec_cs)
     rc, out, err = corpus.run_lexmodel(lines, timeout=3000)
     model_s = time.time() - t0
     log('model runs: %.1fs rc=%s' % (model_s, rc))
@@ -505,7 +516,8 @@ def run_pipeline(tier, seed, log=lambda s: None):
         st = status[nm]
         pr = {'stream': stream[nm], 'build': st['build'], 'detail': st.get('detail', ''), 'def': def_lines(d), 'text': corpus.lexer_text(d),
               'json': def_to_json(d), 'stage': stage.get(nm, []), 'info': info.get(nm, []), 'double': double.get(nm),
-              'dump_complete': bool(dd and dd['complete']), 'ast_equal': bool(dd and dd['ast'] == def_lines(d)),
+              'dump_complete': bool(dd and dd['complete']), 'ast_equal': bool(dd and dd['ast'] == base_kinds(canon_defs.get(nm, def_lines(d)))),
+              'actions_renamed': bool(dd and dd.get('actions_renamed')),
               'ast_dump': dd['ast'] if dd else [], 'time_ms': None, 'ncases': len(allcases.get(nm, []))}
         if dd:
             for l in dd['body']:
@@ -585,6 +597,13 @@ def run_pipeline(tier, seed, log=lambda s: None):
                     counters['switch_cases'] += 1
                 if len(il) > 2 and sum(1 for l in pil if l['item'][0] != 'none') >= 2:
                     counters['nontrivial_cases'] += 1
+            # order / thread independence
+            it2 = impl2.get((nm, c['id']))
+            if it2 is not None:
+                counters['order_independence_cases'] = counters.get('order_independence_cases', 0) + 1
+                if it2['lines'] != il or it2.get('clones') != it.get('clones'):
+                    add_violation(res, 'C15', nm, c, 'the same case gives a different trace when it runs on a fresh thread after other cases (reverse order): '
+                                  'run-time state outside the lexer value', il, it2['lines'])
             # constructor groups
             groups.setdefault(c['id'][:-1] if not c['clones'] else None, {})[c['ctor']] = il
             # clones: the clone's trace equals the original's suffix
